@@ -83,4 +83,31 @@ def requests_for(app, rng, g, want_success=0.75):
         r = ops.apply_real(app, op)
         app.restore(snap)
         out.append((op, r.status))
+    # scripted additions: an EXISTING consumer that holds allocations is handed to another project / user / consumer type
+    # by each of the three allocation-writing routes while its allocations stay as they are (DESIGN appendix C,
+    # "project/user/type change"); a crash or fault must not leave the attribute change without the rest of the write
+    holders = [c for c in gen.CONSUMERS if v.by_consumer.get(c) and c in v.consumers]
+    for i, kind in enumerate(('reshape', 'alloc_put', 'alloc_post')):
+        if not holders:
+            break
+        c = holders[i % len(holders)]
+        cur = v.consumers[c]
+        allocs = [[rp, rc, used] for (rp, rc, used) in sorted(v.by_consumer[c])]
+        creq = {'uuid': c, 'project': 'proj-moved', 'user': 'user-moved',
+                'ctype': 'MIGRATION' if cur.get('ctype') != 'MIGRATION' else 'INSTANCE', 'gen': cur['gen'], 'allocs': allocs}
+        if kind == 'reshape':
+            rps = sorted({a[0] for a in allocs})
+            invs = []
+            for u in rps:
+                lst = [ops.inv(k[1], i['total'], reserved=i['reserved'], min_unit=i['min_unit'], max_unit=i['max_unit'],
+                               step_size=i['step_size'], ratio=i['ratio']) for k, i in sorted(v.invs.items()) if k[0] == u]
+                invs.append({'uuid': u, 'gen': v.rps[u]['gen'], 'invs': lst})
+            op = {'op': 'reshape', 'mv': 39, 'invs': invs, 'cs': [creq]}
+        elif kind == 'alloc_put':
+            op = {'op': 'alloc_put', 'mv': 39, 'c': creq}
+        else:
+            op = {'op': 'alloc_post', 'mv': 39, 'cs': [creq]}
+        r = ops.apply_real(app, op)
+        app.restore(snap)
+        out.append((op, r.status))
     return out
